@@ -1,6 +1,7 @@
 import Capella.Lemmas.Reads
 import Capella.Lemmas.Factories
 import Capella.Gen.Effects
+import Capella.Lemmas.RenderCache
 
 /-!
 # C11 — reading and rendering never change the model
@@ -197,6 +198,45 @@ theorem unknown_factory_not_pure (n : Capella.Effects.Str) :
   show ((unknownFactory effSeb).exec effWitness).1 ≠ effWitness
   decide
 
+/-! ## The render cache of a diagram object (`__render_fresh`, `invalidate_cache`)
+
+Python-level caches are not part of what `save()` writes; what can be asked of them is transparency: a cached
+render answers what a fresh render would. -/
+
+open Capella.RenderCache in
+/-- With the parameters of the last fresh render remembered (`.keyed`, what the docstring of
+`_last_render_params` describes) the cache is transparent: in every history of `render(None, **p)` and
+`invalidate_cache()` calls every render returns (or raises) exactly what `_create_diagram(p)` gives. -/
+theorem render_cache_transparent_keyed {Pic Err : Type} (create : Params → Except Err Pic) (errImg : Err → Pic)
+    (ops : List Op) :
+    (run .keyed create errImg Cache.init ops).map (Option.map (·.2)) = ops.map (spec create) :=
+  run_keyed create errImg _ (inv_init create errImg) ops
+
+open Capella.RenderCache in
+/-- The full statement for the code as it is (`_last_render_params` is never assigned after `__init__`). -/
+def render_cache_transparent_full : Prop :=
+  ∀ (create : Params → Except Unit Params) (ops : List Op),
+    (run .coded create (fun _ => []) Cache.init ops).map (Option.map (·.2)) = ops.map (spec create)
+
+open Capella.RenderCache in
+/-- It fails: after `render(None, a=1)` a plain `render(None)` is served the picture made with `a=1`
+(replayed on the implementation in the `cache` stream; not a violation of C11 — nothing is written). -/
+theorem render_cache_transparent_full_fails : ¬ render_cache_transparent_full := by
+  intro h
+  have h1 := h (fun p => .ok p) [.render [(['a'], ['1'])], .render []]
+  have h2 := congrArg (List.map (fun (o : Option (Except Unit Params)) =>
+    match o with | some (.ok p) => some p | _ => none)) h1
+  revert h2
+  decide
+
+open Capella.RenderCache in
+/-- The strongest statement the code does satisfy: on histories that use one set of parameters throughout
+(any number of renders and invalidations) the cache is transparent. -/
+theorem render_cache_transparent_partial {Pic Err : Type} (create : Params → Except Err Pic) (errImg : Err → Pic)
+    (p0 : Params) (ops : List Op) (h : ∀ op ∈ ops, op = .render p0 ∨ op = .invalidate) :
+    (run .coded create errImg Cache.init ops).map (Option.map (·.2)) = ops.map (spec create) :=
+  run_coded_single create errImg p0 _ (by simp [InvCoded, Cache.init]) ops h
+
 -- Non-vacuity: the statements say something on concrete inputs.
 example : (render .coded witnessState "d".toList).2 = [⟨"e1".toList, "satisfies".toList, false⟩] := by decide
 example : (render .repaired witnessState "d".toList).2 = [⟨"e1".toList, "satisfies".toList, false⟩] := by decide
@@ -215,6 +255,9 @@ example : ((edgeReqRel effSeb [⟨S "b1", true, none⟩]).exec effWitness).2
     = .drawn ⟨S "e1", false, some (S "RequirementRelation"), [], [], none, false, false, false, false, none⟩ := by decide
 open Capella.Effects Capella.Factories in
 example : ((Coded.edgeReqRel effSeb [⟨S "b1", true, none⟩]).trace effWitness).any (fun i => !i.isRead) = true := by decide
+open Capella.RenderCache in
+example : (run .coded (fun p => (.ok p : Except Unit Params)) (fun _ => []) Cache.init
+    [.render [], .render [], .invalidate, .render []]).map (Option.map (·.1)) = [some true, some false, none, some true] := by decide
 example : Capella.Gen.Effects.table.dispatch.length ≥ 50 := by decide
 example : Capella.Gen.Effects.reachable.length ≥ 60 := by decide
 
